@@ -167,7 +167,7 @@ def make_neutral(root: Path, kind: str) -> None:
         p.write_text("# neutral variant: " + kind + "\n\n\n" + new + "\n")
 
 
-NEUTRAL_KINDS = ("unparse", "insert-pass", "rename-locals")
+NEUTRAL_KINDS = ("unparse", "insert-pass", "rename-locals", "swap-eq", "nest-and", "tmp-return")
 
 
 # ----------------------------------------------------------------------------
